@@ -2,6 +2,7 @@ package main
 
 import (
 	"fmt"
+	"go/token"
 	"go/types"
 	"strings"
 
@@ -26,6 +27,18 @@ const (
 
 // closureBinding returns the canonical origin (in the parent) of a closure's free variable.
 func closureBinding(parent, closure *ssa.Function, name string) string {
+	if ei := envMethods[closure]; ei != nil {
+		// method form: the receiver is bound to the parent's struct variable by
+		// reference (pointer receiver) and the field is that variable's field
+		mc := envMakeClosure(parent, closure)
+		if mc == nil || len(mc.Bindings) != 1 || !ei.ptrRecv {
+			return ""
+		}
+		if a, ok := mc.Bindings[0].(*ssa.Alloc); ok && envStructPtr(a.Type()) != nil {
+			return "alloc:" + name
+		}
+		return mc.Bindings[0].Name()
+	}
 	for _, b := range parent.Blocks {
 		for _, in := range b.Instrs {
 			mc, ok := in.(*ssa.MakeClosure)
@@ -61,6 +74,13 @@ func closureBinding(parent, closure *ssa.Function, name string) string {
 // captured variables by what they are initialised with).
 func closureFreeInit(parent, closure *ssa.Function, freeName string) []ssa.Value {
 	var out []ssa.Value
+	if envMethods[closure] != nil {
+		mc := envMakeClosure(parent, closure)
+		if mc == nil || len(mc.Bindings) != 1 {
+			return nil
+		}
+		return structFieldInit(mc.Bindings[0], freeName)
+	}
 	for _, b := range parent.Blocks {
 		for _, in := range b.Instrs {
 			mc, ok := in.(*ssa.MakeClosure)
@@ -89,10 +109,113 @@ func closureFreeInit(parent, closure *ssa.Function, freeName string) []ssa.Value
 	return out
 }
 
+// findMakeClosure: the MakeClosure of the function with this qualified name in
+// fn or in a helper extracted from it.
+func findMakeClosure(fn *ssa.Function, qual string) *ssa.MakeClosure {
+	var find func(f *ssa.Function, d int) *ssa.MakeClosure
+	find = func(f *ssa.Function, d int) *ssa.MakeClosure {
+		for _, b := range f.Blocks {
+			for _, in := range b.Instrs {
+				if mc, ok := in.(*ssa.MakeClosure); ok {
+					if cf, ok := mc.Fn.(*ssa.Function); ok && calleeName(cf) == qual {
+						return mc
+					}
+				}
+				if call, ok := in.(ssa.CallInstruction); ok && d < 3 {
+					if sc := call.Common().StaticCallee(); sc != nil && unknownHelper(sc, d+1) {
+						if r := find(sc, d+1); r != nil {
+							return r
+						}
+					}
+				}
+			}
+		}
+		return nil
+	}
+	return find(fn, 0)
+}
+
+// envMakeClosure: where parent binds the method that stands for a closure.
+func envMakeClosure(parent, m *ssa.Function) *ssa.MakeClosure {
+	if parent == nil {
+		if ei := envMethods[m]; ei != nil {
+			parent = ei.parent
+		}
+	}
+	if parent == nil {
+		return nil
+	}
+	for _, b := range parent.Blocks {
+		for _, in := range b.Instrs {
+			mc, ok := in.(*ssa.MakeClosure)
+			if !ok {
+				continue
+			}
+			f, _ := mc.Fn.(*ssa.Function)
+			if f == nil || !strings.HasSuffix(f.Name(), "$bound") {
+				continue
+			}
+			if obj, ok := f.Object().(*types.Func); ok && parent.Prog.FuncValue(obj) == m {
+				return mc
+			}
+		}
+	}
+	return nil
+}
+
+// structFieldInit: the values stored into the named field of the struct value
+// (or pointer to a fresh struct) v, built by a composite literal.
+func structFieldInit(v ssa.Value, field string) []ssa.Value {
+	if ld, ok := v.(*ssa.UnOp); ok && ld.Op == token.MUL {
+		v = ld.X
+	}
+	al, ok := v.(*ssa.Alloc)
+	if !ok || al.Referrers() == nil {
+		return nil
+	}
+	var out []ssa.Value
+	for _, r := range *al.Referrers() {
+		// the variable assigned from a composite literal built in a temporary
+		if st, ok := r.(*ssa.Store); ok && st.Addr == ssa.Value(al) {
+			if ld, ok := st.Val.(*ssa.UnOp); ok && ld.Op == token.MUL {
+				if tmp, ok := ld.X.(*ssa.Alloc); ok && tmp != al {
+					out = append(out, structFieldInit(tmp, field)...)
+				}
+			}
+			continue
+		}
+		fa, ok := r.(*ssa.FieldAddr)
+		if !ok || fa.Referrers() == nil {
+			continue
+		}
+		st, ok := fa.X.Type().Underlying().(*types.Pointer).Elem().Underlying().(*types.Struct)
+		if !ok || st.Field(fa.Field).Name() != field {
+			continue
+		}
+		for _, fr := range *fa.Referrers() {
+			if s, ok := fr.(*ssa.Store); ok && s.Addr == ssa.Value(fa) {
+				out = append(out, s.Val)
+			}
+		}
+	}
+	return out
+}
+
 // freeVarsWhere lists the closure's free variables whose parent-side initial
 // values satisfy pred.
 func freeVarsWhere(parent, closure *ssa.Function, pred func(v ssa.Value) bool) []string {
 	var out []string
+	if ei := envMethods[closure]; ei != nil {
+		for i := 0; i < ei.st.NumFields(); i++ {
+			for _, v := range closureFreeInit(parent, closure, ei.st.Field(i).Name()) {
+				if pred(v) {
+					out = append(out, ei.st.Field(i).Name())
+					break
+				}
+			}
+		}
+		return out
+	}
 	for _, fv := range closure.FreeVars {
 		for _, v := range closureFreeInit(parent, closure, fv.Name()) {
 			if pred(v) {
